@@ -115,6 +115,8 @@ def verify_contract(qn, timeout_ms, only_variant=None):
     out = {"qualname": qn, "obligations": [], "paths": 0, "fault": None, "assumptions": set(), "unsupported": None,
            "segment": None, "inlined": set(), "contract_calls": set(), "raised_kinds": set()}
     _STATE["partial"] = out
+    from . import specfun as _sf
+    _sf.FORCE_FUEL[0] = bool(getattr(con, "fuel", False))
     if f is None:
         out["unsupported"] = f"function {qn} not found in the tree under test"
         return out
@@ -521,7 +523,9 @@ def _run_one(ip, path, con, f, node, variant, vi):
                 ip.modifies_ok.add(("zattr", o.t.get_id(), m.split(".", 1)[1]))
     if con.requires is not None:
         path.assume(clause_bool(ip, con.requires, env, f"{qn}#requires", mode="assume"))
-    old = LDict([(C(k), v) for k, v in env.items()])
+    old = LDict([(C(k), v) for k, v in env.items()] +
+                [(C(m), env[m.split(".", 1)[0]].attrs[m.split(".", 1)[1]]) for m in con.modifies
+                 if "." in m and isinstance(env.get(m.split(".", 1)[0]), SObj) and m.split(".", 1)[1] in env[m.split(".", 1)[0]].attrs])
     ip.entry_env = dict(env)
     try:
         if "**" in kwargs or any(type(a).__name__ == "StarArgs" for a in args):
@@ -759,9 +763,14 @@ def summarise(prop, tier, results, wall, contracts):
                 if ob["status"] == "dead" and not contracts[r["qualname"]].frame_only and not (ob.get("info") or {}).get("unsure"):
                     faults.append(f"vacuity: canary of {ob['name']} is provable (contradictory assumptions)")
                 continue
-            n_ob += 1
             solver_s += ob["solver_s"]
-            bk = ob["backend"] or "not-sent (path outside the verifier's subset)"
+            if ob["status"] not in ("proved", "failed"):
+                # undecided (solver gave no answer, or the path left the verifier's subset): listed, not counted among the
+                # obligations this run decided
+                undecided.append({"obligation": ob["name"], "reason": ob["reason"]})
+                continue
+            n_ob += 1
+            bk = ob["backend"] or "?"
             by_backend[bk] = by_backend.get(bk, 0) + 1
             slow.append((ob["solver_s"], ob["name"]))
             if ob["status"] == "proved":
@@ -774,8 +783,6 @@ def summarise(prop, tier, results, wall, contracts):
                 failed.append({"name": ob["name"], "function": r["qualname"], "segment": r["segment"], "clause_kind": ob["kind"],
                                "info": ob["info"], "model": ob["model"], "variant": ob.get("variant"), "backend": ob["backend"],
                                "solver_s": ob["solver_s"], "replay": rp, "replayed": bool(rp.get("reproduced"))})
-            else:
-                undecided.append({"obligation": ob["name"], "reason": ob["reason"]})
         cs = [o["status"] for o in r["obligations"] if o["kind"] == "canary"]
         if not r["obligations"] and not r.get("unsupported_variants"):
             faults.append(f"vacuity: {r['qualname']} produced no obligation at all (every path ended in a contradiction)")
